@@ -120,6 +120,13 @@ def main():
                            'ran': 'harness/seed_eval.py %s %s (scratch worktree, SC3_REPO)' % (a.pid, a.k)},
              'checks': out['checks']}
         m['first_eval'] = first or out['checks'].get(a.pid)
+        if os.path.exists(old):
+            try:
+                jo = json.load(open(old)).get('judged_outside')
+                if jo:
+                    m['judged_outside'] = jo
+            except Exception:
+                pass
         json.dump(m, open(os.path.join(dst, 'meta.json'), 'w'), indent=1)
     print(json.dumps({k: v for k, v in out.items() if k != 'author_meta'}, indent=1))
 
